@@ -522,9 +522,9 @@ func TestC01Late(t *testing.T) {
 	vf.Run(t, "C01Late", vf.Opts{Bubble: true, DefaultN: 24}, func(c *vf.Case) {
 		r := c.Rng
 		pull := c.Index%2 == 0
-		timing := (c.Index / 2) % 4 // 0 no late update, 1 before the responder's completion, 2 while its Complete message is being sent, 3 right after
-		ownFirst := (c.Index/8)%2 == 0
-		tp := newTwoParty(c, pull, datatransfer.ValidationResult{Accepted: true})
+		timing := (c.Index / 2) % 6 // 0 no late update, 1 before the responder's completion, 2 while its Complete message is being sent, 3 right after; 4, 5: finalization required from the start and released in two validation rounds
+		ownFirst := (c.Index/12)%2 == 0
+		tp := newTwoParty(c, pull, datatransfer.ValidationResult{Accepted: true, RequiresFinalization: timing >= 4})
 		A, B, chid := tp.a, tp.b, tp.chid
 		if va, vb := A.view(chid), B.view(chid); va == nil || vb == nil || va.Status != datatransfer.Ongoing || vb.Status != datatransfer.Ongoing {
 			c.Note("setup: initiator %v responder %v", va, vb)
@@ -571,6 +571,22 @@ func TestC01Late(t *testing.T) {
 		if !ownFirst {
 			A.tp.Events().OnChannelCompleted(chid, nil)
 			settle()
+		}
+		if timing >= 4 {
+			// round 1 lifts the finalization requirement but keeps the channel held (forced pause, or a data
+			// limit that still binds); round 2 lets it go. Only then may either side complete.
+			r1 := datatransfer.ValidationResult{Accepted: true, ForcePause: true}
+			if timing == 5 {
+				r1 = datatransfer.ValidationResult{Accepted: true, RequiresFinalization: true, ForcePause: r.Intn(2) == 0}
+			}
+			B.m.UpdateValidationStatus(bg, chid, r1)
+			settle()
+			if va := A.view(chid); va != nil && va.Status == datatransfer.Completed {
+				c.Violation("C01", "initiator-completed-while-responder-held", "the initiator reports Completed after validation round 1, which still holds the responder (%+v)", r1)
+			}
+			B.m.UpdateValidationStatus(bg, chid, datatransfer.ValidationResult{Accepted: true})
+			settle()
+			c.Count("two_round_finalizations", 1)
 		}
 		va, vb := A.view(chid), B.view(chid)
 		if va != nil && va.Status == datatransfer.Completed {
